@@ -85,7 +85,8 @@ RelevantFor(Q, clause, op, names, kinds) ==
 \* the known-findings file
 Relevant(clause, op, names, kinds) == clause = "model-fault" \/ RelevantFor(P, clause, op, names, kinds)
 AllRuleNames == UNION {RulesOf(q) : q \in {"C01", "C02", "C03", "C06", "C07", "C10", "C12", "C13", "C14"}}
-WantedRules == IF P = "ALL" THEN AllRuleNames
+WantedRules == IF "RULES" \in DOMAIN IOEnv /\ IOEnv.RULES # "" THEN {IOEnv.RULES}      \* (diagnosis: a single rule by name)
+               ELSE IF P = "ALL" THEN AllRuleNames
                ELSE IF P = "C11" THEN RulesOf("C02") \cup RulesOf("C03") \cup RulesOf("C10")
                ELSE RulesOf(P)
 \* a show made outside a showdown (before the first deal, or while chips are pushed and pulled) is the named deviation
@@ -119,7 +120,9 @@ ObsOK(t, k, op, C, St) ==
 \* rules on an observed state
 RulesOK(t, k, op, C, St) ==
   LET bad == BrokenRules(C, St)
-      ctx == IF Live(St) = 0 THEN {"ctx:nobody-live"} ELSE {}
+      ctx == (IF Live(St) = 0 THEN {"ctx:nobody-live"} ELSE {})
+             \cup (IF "C10_dealt_as_prescribed" \in bad /\ \E r \in DOMAIN St.board : Len(St.board[r]) > BoardCount(C, St)
+                   THEN {"ctx:fallback-cards-share-a-row"} ELSE {})
   IN bad = {} \/ Report(t, k, "rule", op, bad \cup ctx, Kinds(St.log), <<>>)
 
 \* rules over the history of the hand (fl: the whole log up to and including this state)
